@@ -73,7 +73,12 @@ def run_case(case, ctx):
         s = pd.Series(vals, index=pd.DatetimeIndex(idx), dtype=float)
         b = Bi(s, stamp)
         versions.append((stamp, s))
+        snap_b = (list(b.index), b.values.tolist())
+        snap_s = None if store is None else (list(store.index), store.values.tolist())
         st, merged = ctx.call(bi_merge, store, b)
+        if st == 'ok':
+            okb = (list(b.index), _vl(b)) == (snap_b[0], _nl(snap_b[1])) and (store is None or (list(store.index), _vl(store)) == (snap_s[0], _nl(snap_s[1])))
+            ctx.check('merge_operands_unchanged', okb, lambda: 'bi_merge modified the store or the new version it was given')
         if st != 'ok':
             ctx.ev('asof_read_last'); ctx.fail('asof_read_last', 'bi_merge raised at version %d: %s' % (vi, core.exc_str(merged)))
             return
@@ -112,6 +117,14 @@ def run_case(case, ctx):
     ctx.maxstat('max_store_rows', rows_max)
 
 
+def _nl(rows):
+    return [['nan' if (isinstance(v, float) and v != v) else v for v in r] for r in rows]
+
+
+def _vl(df):
+    return _nl(df.values.tolist())
+
+
 def check_reads(ctx, store, ledger, stamps, where, mon_prefix=None):
     from pyg_base import bi_read
     us = sorted(set(stamps))
@@ -120,6 +133,7 @@ def check_reads(ctx, store, ledger, stamps, where, mon_prefix=None):
         Ts.append(a)
         Ts.append(a + (b - a) / 2 if b is not None else a + datetime.timedelta(hours=5))
     Ts.append(None)
+    snap0 = (list(store.index), _vl(store)) if hasattr(store, 'values') else None
     for T in Ts:
         for what in (-1, 0):
             st, res = ctx.call(bi_read, store, T, what)
@@ -145,6 +159,9 @@ def check_reads(ctx, store, ledger, stamps, where, mon_prefix=None):
                 d, g, v = bad[0]
                 ctx.fail(mon, 'bi_read(asof=%s, what=%d): %d date(s) differ, e.g. %s -> %s, ledger says %s; entries for that date %s (%s)' % (T, what, len(bad), d.date(), g, v, ledger[d], where))
                 return False
+    if snap0 is not None:
+        if not ctx.check('read_does_not_change_store', (list(store.index), _vl(store)) == snap0, lambda: 'reading changed the stored rows (%s)' % where):
+            return False
     return True
 
 
@@ -169,7 +186,7 @@ def gen_case(rng):
 
 
 def plan(tier, seed, n):
-    per = 14 if tier == 'quick' else 600
+    per = 14 if tier == 'quick' else 1500
     return [{'n': per} for _ in range(n)]
 
 
